@@ -237,7 +237,7 @@ def one_history(res, rng, ctx):
     for rnd in (1, 2, 3):
         try:
             same_stream.seek(0)
-            got2 = list(p.callstacks(same_stream if rnd < 3 else io.BytesIO(data)))
+            got2 = list(p.callstacks(same_stream if rnd < 3 else wire.stream(data)))
         except Exception as x:
             res.violation(f'c15-front-raises-{core.exc_name(x)}', f'{x!r}', case)
             return
